@@ -90,6 +90,22 @@ protected:
     return traits::to_int_type(*this->gptr());
   }
 
+  // putback / unget of at least one character works everywhere (as with stringbuf and filebuf):
+  // when the get area has nothing before gptr, it is re-seated one character earlier
+  int_type pbackfail(int_type c) override
+  {
+    std::size_t const pos = logical_pos();
+    if (pos == 0 || pos > size())
+      return traits::eof();
+    Ch const prev = data_[pos - 1];
+    if (!traits::eq_int_type(c, traits::eof()) && !traits::eq(traits::to_char_type(c), prev))
+      return traits::eof(); // this is a read-only file: only the character that is there
+    area_[0] = prev;
+    base_pos_ = pos - 1;
+    this->setg(area_.data(), area_.data(), area_.data() + 1);
+    return traits::not_eof(c);
+  }
+
   pos_type seekoff(off_type off, std::ios_base::seekdir dir, std::ios_base::openmode which) override
   {
     ++seeks_;
